@@ -1,5 +1,6 @@
 use crate::engine::Run;
 
+pub mod c03;
 pub mod c06;
 pub mod c07;
 pub mod c08;
@@ -10,6 +11,7 @@ pub mod c14;
 pub mod linerules;
 
 pub const TABLE: &[(&str, fn(&mut Run))] = &[
+    ("C03", c03::run),
     ("C06", c06::run),
     ("C07", c07::run),
     ("C08", c08::run),
